@@ -174,7 +174,7 @@ func c01Grammar(res *explore.Result, g *gram.Grammar, inputs [][]byte, verbose b
 		}
 		lastLen = len(w)
 		t := ref.Compute(g, an, w, true)
-		c := Case{Placement: impl.Placement, Prior: b.MemoBefore, Grammar: gs, Input: string(w), History: append([]string{}, history...)}
+		c := Case{Placement: impl.Placement, Prior: b.MemoBefore, Grammar: gs, Input: string(w), History: append([]string{}, history...), Tokens: impl.Tokens != nil}
 		history = append(history, string(w))
 		if anyOver(t) && len(w) > 2 {
 			// infinitely (or hugely) ambiguous on this input: the number of returned trees is a
@@ -228,6 +228,26 @@ func c01Grammar(res *explore.Result, g *gram.Grammar, inputs [][]byte, verbose b
 func c01Run(env *explore.Env) *explore.Result {
 	res := explore.NewResult()
 	eachGrammarPlaced(env, res, c01Specs(env.Tier), seedCorpus, func(g *gram.Grammar, inputs [][]byte, _ bool) {
+		c01Grammar(res, g, inputs, false)
+	})
+	// the seed corpus and the smallest grammars once more with terminals whose TOKEN NAMES are the ones the library
+	// uses itself (EMPTY, SEQ): results must not depend on how a grammar writer names a token
+	impl.Tokens = CollidingTokens
+	defer func() { impl.Tokens = nil }()
+	var small []spaceSpec
+	for _, s := range c01Specs(env.Tier) {
+		if s.tmpl == nil && s.sp.FixedShared == nil && s.sp.Min <= 4 {
+			c := *s.sp
+			if c.Max > 4 {
+				c.Max = 4
+			}
+			s2 := s
+			s2.sp = &c
+			small = append(small, s2)
+		}
+	}
+	eachGrammar(env, res, small, seedCorpus, func(g *gram.Grammar, inputs [][]byte, _ bool) {
+		res.Add("grammars_with_colliding_token_names", 1)
 		c01Grammar(res, g, inputs, false)
 	})
 	return res
